@@ -11,10 +11,11 @@ PENDING_REASON = "no check registered yet in this revision (model/theorems/corre
 
 def main():
     checks, claimed = [], []
+    ready = json.load(open(os.path.join(core.VERIF, "claimed.json")))  # property ids integrated and verified green
     for p in sorted(glob.glob(os.path.join(core.LEAN, "theorems", "C*.json"))):
         pid = os.path.basename(p)[:-5]
         m = json.load(open(p))
-        if m.get("disabled"):
+        if m.get("disabled") or pid not in ready:
             continue
         claimed.append(pid)
         names = [t["name"].replace("Mofun.", "") for t in m["theorems"]]
